@@ -210,6 +210,23 @@ fn type_name(t: &syn::Type) -> String {
 }
 
 fn find_fn<'a>(items: &'a [syn::Item], qual: &str) -> Option<FnLoc<'a>> {
+    // `name#k`: the k-th (0-based) top-level function of that name (cfg-gated variants share a name)
+    if let Some((q, k)) = qual.rsplit_once('#') {
+        if let Ok(k) = k.parse::<usize>() {
+            let mut seen = 0usize;
+            for it in items {
+                if let syn::Item::Fn(f) = it {
+                    if f.sig.ident == q {
+                        if seen == k {
+                            return Some(FnLoc { attrs: &f.attrs, vis: &f.vis, sig: &f.sig, block: &f.block, whole: f.span() });
+                        }
+                        seen += 1;
+                    }
+                }
+            }
+            return None;
+        }
+    }
     let (tr, rest) = match qual.split_once('@') {
         Some((t, r)) => (Some(t), r),
         None => (None, qual),
@@ -352,6 +369,13 @@ impl<'a, 'ast> Visit<'ast> for Scan<'a> {
 // ---------------------------------------------------------------------------------------------
 // rewrite rules
 // ---------------------------------------------------------------------------------------------
+/// finds `return` / `?` (not inside closures, whose returns are their own)
+struct ExitScan(bool);
+impl<'x> Visit<'x> for ExitScan {
+    fn visit_expr_return(&mut self, _: &'x syn::ExprReturn) { self.0 = true; }
+    fn visit_expr_try(&mut self, _: &'x syn::ExprTry) { self.0 = true; }
+    fn visit_expr_closure(&mut self, _: &'x syn::ExprClosure) {}
+}
 struct Rewriter<'a, 'e> {
     src: &'a Src,
     ed: &'e mut Editor<'a>,
@@ -361,6 +385,12 @@ struct Rewriter<'a, 'e> {
     thread: Vec<(String, String)>,
     /// R27 (per-function flag `tostring`): X.to_string() -> X.shim_to_string()
     tostring: bool,
+    /// R29: names of all functions that have a contract somewhere in contracts/ (never inlined)
+    known: &'a std::collections::BTreeSet<String>,
+    /// R29: the impl type of the function being extracted (for `self.helper(..)` / `Self::helper(..)`)
+    self_ty: Option<String>,
+    inline_stack: Vec<String>,
+    inline_visited: std::collections::BTreeSet<String>,
 }
 
 const LOG_MACROS: &[&str] = &["trace", "debug", "info", "warn", "error", "println", "eprintln", "print", "eprint"];
@@ -385,6 +415,140 @@ impl<'a, 'e> Rewriter<'a, 'e> {
             }
         }
         None
+    }
+    /// R29: a same-file helper without a contract of its own, simple enough to be replaced by its body at the call site:
+    /// no generics, plain `ident: Type` parameters, no `return`, no `?`, no loop, not recursive.
+    fn find_helper(&self, name: &str, method: bool) -> Option<(&'a syn::Signature, &'a syn::Block)> {
+        if self.known.contains(name) || self.inline_stack.iter().any(|n| n == name) {
+            return None;
+        }
+        let mut found: Vec<(&'a syn::Signature, &'a syn::Block)> = vec![];
+        for it in &self.src.ast.items {
+            match it {
+                syn::Item::Fn(f) if !method && f.sig.ident == name => found.push((&f.sig, &f.block)),
+                syn::Item::Impl(im) if im.trait_.is_none() && self.self_ty.as_deref() == Some(type_name(&im.self_ty).as_str()) => {
+                    for ii in &im.items {
+                        if let syn::ImplItem::Fn(f) = ii {
+                            if f.sig.ident == name { found.push((&f.sig, &f.block)); }
+                        }
+                    }
+                }
+                _ => {}
+            }
+        }
+        if found.len() != 1 { return None; }
+        let (sig, block) = found[0];
+        if !sig.generics.params.is_empty() || sig.asyncness.is_some() || sig.unsafety.is_some() { return None; }
+        let has_recv = sig.inputs.iter().any(|a| matches!(a, syn::FnArg::Receiver(_)));
+        if has_recv != method { return None; }
+        for a in &sig.inputs {
+            if let syn::FnArg::Typed(pt) = a {
+                if !matches!(&*pt.pat, syn::Pat::Ident(pi) if pi.by_ref.is_none() && pi.subpat.is_none()) { return None; }
+            }
+        }
+        struct Bad(bool);
+        impl<'x> Visit<'x> for Bad {
+            fn visit_expr_for_loop(&mut self, _: &'x syn::ExprForLoop) { self.0 = true; }
+            fn visit_expr_while(&mut self, _: &'x syn::ExprWhile) { self.0 = true; }
+            fn visit_expr_loop(&mut self, _: &'x syn::ExprLoop) { self.0 = true; }
+            fn visit_expr_await(&mut self, _: &'x syn::ExprAwait) { self.0 = true; }
+            fn visit_expr_closure(&mut self, _: &'x syn::ExprClosure) { /* a `return` inside a closure is the closure's own */ }
+        }
+        let mut b = Bad(false);
+        b.visit_block(block);
+        if b.0 { return None; }
+        Some((sig, block))
+    }
+    /// R29: `helper(a, b)` -> `{ let (p, q): (P, Q) = (a, b); let shim_ret: R = { BODY }; shim_ret }` -- beta reduction; the
+    /// arguments are evaluated once, in order, before the body; the body text is the helper's, with the rewrite rules applied
+    fn has_exit(e: &dyn Fn(&mut ExitScan)) -> bool { let mut x = ExitScan(false); e(&mut x); x.0 }
+    /// the helper's statements as an expression block; early exits are restructured (no other rewriting):
+    ///   `if C { S*; return E; }  REST`   ->  `if C { S*; E } else { REST }`
+    ///   `let P = X?;  REST`              ->  `match X { Some(v) => { let P = v; REST }, None => None }`   (Option-returning helper)
+    ///                                        `match X { Ok(v) => { let P = v; REST }, Err(e) => Err(From::from(e)) }`   (Result)
+    /// any other `return` / `?` makes the helper not inlinable (None)
+    fn helper_pieces(&self, stmts: &'a [syn::Stmt], ret: &str) -> Option<Vec<Piece>> {
+        let mut pieces = vec![Self::lit("{ ")];
+        for (i, st) in stmts.iter().enumerate() {
+            // guard clause
+            if let syn::Stmt::Expr(syn::Expr::If(ifx), _) = st {
+                if ifx.else_branch.is_none() {
+                    if let Some(syn::Stmt::Expr(syn::Expr::Return(r), _)) = ifx.then_branch.stmts.last() {
+                        let inner = &ifx.then_branch.stmts[..ifx.then_branch.stmts.len() - 1];
+                        let clean = !Self::has_exit(&|x| x.visit_expr(&ifx.cond)) && inner.iter().all(|s| !Self::has_exit(&|x| x.visit_stmt(s)))
+                            && r.expr.as_ref().map(|e| !Self::has_exit(&|x| x.visit_expr(e))).unwrap_or(true);
+                        if !clean { return None; }
+                        pieces.push(Self::lit("if "));
+                        pieces.push(self.sub(ifx.cond.span()));
+                        pieces.push(Self::lit(" { "));
+                        for s2 in inner { pieces.push(self.sub(s2.span())); pieces.push(Self::lit(" ")); }
+                        match &r.expr { Some(e) => pieces.push(self.sub(e.span())), None => pieces.push(Self::lit("()")) }
+                        pieces.push(Self::lit(" } else "));
+                        pieces.extend(self.helper_pieces(&stmts[i + 1..], ret)?);
+                        pieces.push(Self::lit(" }"));
+                        return Some(pieces);
+                    }
+                }
+            }
+            // let with `?`
+            if let syn::Stmt::Local(l) = st {
+                if let Some(init) = &l.init {
+                    if let (syn::Expr::Try(t), None) = (&*init.expr, &init.diverge) {
+                        if Self::has_exit(&|x| x.visit_expr(&t.expr)) { return None; }
+                        let (some, none) = if ret.starts_with("Option") { ("Some(shim_v)", "None => None") }
+                            else if ret.starts_with("Result") { ("Ok(shim_v)", "Err(shim_e) => Err(From::from(shim_e))") } else { return None; };
+                        pieces.push(Self::lit("match "));
+                        pieces.push(self.sub(t.expr.span()));
+                        pieces.push(Self::lit(&format!(" {{ {} => {{ let ", some)));
+                        pieces.push(self.sub(l.pat.span()));
+                        pieces.push(Self::lit(" = shim_v; "));
+                        pieces.extend(self.helper_pieces(&stmts[i + 1..], ret)?);
+                        pieces.push(Self::lit(&format!(" }}, {} }} }}", none)));
+                        return Some(pieces);
+                    }
+                }
+            }
+            if Self::has_exit(&|x| x.visit_stmt(st)) { return None; }
+            pieces.push(self.sub(st.span()));
+            pieces.push(Self::lit(" "));
+        }
+        pieces.push(Self::lit("}"));
+        Some(pieces)
+    }
+    /// R29: `helper(a, b)` -> `{ let (p, q): (P, Q) = (a, b); let shim_ret: R = { BODY }; shim_ret }` -- beta reduction; the
+    /// arguments are evaluated once, in order, before the body; the body text is the helper's, with the rewrite rules applied
+    fn inline_call(&mut self, name: &str, sig: &'a syn::Signature, block: &'a syn::Block, whole: Span, args: Vec<&syn::Expr>) -> bool {
+        let (a, b) = self.src.range(whole);
+        let mut pieces = vec![Self::lit("{ ")];
+        let params: Vec<&syn::PatType> = sig.inputs.iter().filter_map(|x| if let syn::FnArg::Typed(pt) = x { Some(pt) } else { None }).collect();
+        if params.len() != args.len() { return false; }
+        let ret_text = match &sig.output {
+            syn::ReturnType::Type(_, ty) => { let (x, y) = self.src.range(ty.span()); self.src.text[x..y].trim().to_string() }
+            syn::ReturnType::Default => "()".to_string(),
+        };
+        let body = match self.helper_pieces(&block.stmts, &ret_text) { Some(p) => p, None => return false };
+        if !params.is_empty() {
+            pieces.push(Self::lit("let ("));
+            for pt in &params { pieces.push(self.sub(pt.pat.span())); pieces.push(Self::lit(", ")); }
+            pieces.push(Self::lit("): ("));
+            for pt in &params { pieces.push(self.sub(pt.ty.span())); pieces.push(Self::lit(", ")); }
+            pieces.push(Self::lit(") = ("));
+            for e in &args { pieces.push(self.sub(e.span())); pieces.push(Self::lit(", ")); }
+            pieces.push(Self::lit("); "));
+        }
+        pieces.push(Self::lit(&format!("let shim_ret: {} = ", ret_text)));
+        pieces.extend(body);
+        pieces.push(Self::lit("; shim_ret }"));
+        self.ed.replace(a, b, pieces, "R29");
+        self.fire("R29");
+        // rewrite rules inside the arguments and (once) inside the helper's own text
+        for e in &args { self.visit_expr(e); }
+        if self.inline_visited.insert(name.to_string()) {
+            self.inline_stack.push(name.to_string());
+            self.visit_block(block);
+            self.inline_stack.pop();
+        }
+        true
     }
     /// `|_| panic!(..)` / `|_| { panic!(..) }` (also unreachable!)
     fn closure_only_panics(e: &syn::Expr) -> bool {
@@ -559,6 +723,23 @@ impl<'a, 'e, 'ast> Visit<'ast> for Rewriter<'a, 'e> {
                 self.fire("R22");
             }
         }
+        // R29: inline a contract-less same-file helper
+        if let syn::Expr::Path(p) = &*c.func {
+            let segs: Vec<String> = p.path.segments.iter().map(|s| s.ident.to_string()).collect();
+            let nm = segs.last().cloned().unwrap_or_default();
+            let free = segs.len() == 1;
+            let assoc = segs.len() == 2 && (segs[0] == "Self" || Some(&segs[0]) == self.self_ty.as_ref());
+            if (free || assoc) && !self.thread.iter().any(|(n, _)| *n == nm) {
+                if let Some((sig, block)) = self.find_helper(&nm, false) {
+                    // a free function is looked up among top-level items; an associated one among the impl's items
+                    let is_top = self.src.ast.items.iter().any(|it| matches!(it, syn::Item::Fn(f) if f.sig.ident == nm));
+                    if (free && is_top) || (assoc && !is_top) {
+                        let args: Vec<&syn::Expr> = c.args.iter().collect();
+                        if self.inline_call(&nm, sig, block, c.span(), args) { return; }
+                    }
+                }
+            }
+        }
         syn::visit::visit_expr_call(self, c);
     }
     fn visit_expr_binary(&mut self, b: &'ast syn::ExprBinary) {
@@ -639,6 +820,14 @@ impl<'a, 'e, 'ast> Visit<'ast> for Rewriter<'a, 'e> {
         let e = syn::Expr::MethodCall(m.clone());
         let (a, b) = self.src.range(m.span());
         let name = m.method.to_string();
+        // R29: `self.helper(args)` where helper is a contract-less method of the same impl type: replaced by its body
+        if matches!(&*m.receiver, syn::Expr::Path(p) if p.path.is_ident("self")) && m.turbofish.is_none() && !self.thread.iter().any(|(n, _)| *n == name) {
+            if let Some((sig, block)) = self.find_helper(&name, true) {
+                // SAFETY of lifetimes: sig/block borrow from self.src (lifetime 'a), `m` only supplies the argument spans
+                let args: Vec<&syn::Expr> = m.args.iter().collect();
+                if self.inline_call(&name, sig, block, m.span(), args) { return; }
+            }
+        }
         // R4: (&mut A as &mut [u8]).write_uNN::<LittleEndian>(X)  ->  shim_write_uNN_into(&mut A, X)
         let mut recv: &syn::Expr = &m.receiver;
         while let syn::Expr::Paren(p) = recv {
@@ -834,6 +1023,12 @@ struct Ctx {
     unit_props: Vec<String>,
     vacuity: bool,
     defines: Vec<String>,
+    /// names (last path segment) of every function that has a `//@fn` / `//@stmt` / `//@outline` contract in contracts/
+    known: std::collections::BTreeSet<String>,
+    /// item names declared by `//@item` anywhere in contracts/, and the items emitted so far in this unit
+    known_items: std::collections::BTreeSet<String>,
+    emitted_items: std::collections::BTreeSet<String>,
+    auto_text: String,
 }
 
 impl Ctx {
@@ -1080,7 +1275,10 @@ fn process_fn(ctx: &mut Ctx, d: &FnDirective, assume_default: bool, tfile: &str)
                 let w: Vec<&str> = a.split_whitespace().collect();
                 if w[0] == "thread" { Some((w.get(1).unwrap_or_else(|| fail(format!("{}:{}: //@thread needs a callee", tfile, d.tline))).to_string(), t.trim().to_string())) } else { None }
             }).collect();
-            let mut rw = Rewriter { src, ed: &mut ed, abort_allowed, fired: BTreeMap::new(), thread, tostring: d.opts.has("tostring") };
+            let self_ty = { let q = d.qual.split('@').last().unwrap_or(""); q.rsplit_once("::").map(|(t, _)| t.to_string()) };
+            let mut rw = Rewriter { src, ed: &mut ed, abort_allowed, fired: BTreeMap::new(), thread, tostring: d.opts.has("tostring"),
+                                    known: &ctx.known, self_ty, inline_stack: vec![d.qual.split('@').last().unwrap_or("").rsplit("::").next().unwrap_or("").to_string()],
+                                    inline_visited: Default::default() };
             rw.visit_block(loc.block);
             fired = rw.fired;
         }
@@ -1100,6 +1298,46 @@ fn process_fn(ctx: &mut Ctx, d: &FnDirective, assume_default: bool, tfile: &str)
     }
     for (k, v) in &fired {
         *ctx.rules_fired.entry(k.clone()).or_insert(0) += v;
+    }
+    // automatic import of same-file constants: a SCREAMING_CASE identifier used in the body that names a top-level const/static of
+    // the same file, and is neither declared by an `//@item` of any template nor emitted yet, is copied verbatim in front of the
+    // function (so a renamed or newly introduced constant does not make the unit undecidable)
+    if !mode_assume {
+        // identifiers of the RENDERED text (it includes the text of helpers inlined by R29)
+        let mut ids: Vec<String> = vec![];
+        {
+            let mut cur = String::new();
+            for ch in text.chars().chain(std::iter::once(' ')) {
+                if ch.is_ascii_alphanumeric() || ch == '_' { cur.push(ch); } else {
+                    if cur.len() >= 2 && cur.chars().next().map(|c| c.is_ascii_uppercase()).unwrap_or(false)
+                        && cur.chars().all(|c| c.is_ascii_uppercase() || c.is_ascii_digit() || c == '_') { ids.push(cur.clone()); }
+                    cur.clear();
+                }
+            }
+        }
+        let mut auto: Vec<(String, String)> = vec![];
+        {
+            let src = &ctx.srcs[&d.file];
+            for id in ids {
+                if ctx.known_items.contains(&id) || ctx.emitted_items.contains(&id) || auto.iter().any(|(n, _)| *n == id) { continue; }
+                for it in &src.ast.items {
+                    let (nm, sp) = match it {
+                        syn::Item::Const(c) => (c.ident.to_string(), c.span()),
+                        syn::Item::Static(c) => (c.ident.to_string(), c.span()),
+                        _ => continue,
+                    };
+                    if nm == id {
+                        let (x, y) = src.range(sp);
+                        auto.push((id.clone(), src.text[x..y].to_string()));
+                    }
+                }
+            }
+        }
+        for (n, t) in auto {
+            ctx.emitted_items.insert(n.clone());
+            // emitted at the top of the unit (the function may sit inside an impl block, where a const would be an associated one)
+            ctx.auto_text.push_str(&format!("// >>> auto-imported constant {} from /repo/{}\n{}\n// <<< {}\n", n, d.file, t, n));
+        }
     }
     let src = &ctx.srcs[&d.file];
     let (l0, l1) = (src.line_of(fstart), src.line_of(fend));
@@ -1149,6 +1387,12 @@ fn process_item(ctx: &mut Ctx, file: &str, name: &str, opts: &Opts, tfile: &str,
             found = Some((sp, attrs, vis));
             break;
         }
+    }
+    if found.is_none() && !name.is_empty() && name.chars().all(|c| c.is_ascii_uppercase() || c.is_ascii_digit() || c == '_') {
+        // a constant that no longer exists under this name (renamed / removed): not emitted. Code that still refers to it fails
+        // to compile (exit 2); a renamed constant is picked up by the automatic import below.
+        ctx.emit(&format!("// (constant {} is absent from /repo/{})\n", name, file));
+        return;
     }
     let (sp, attrs, kw) = found.unwrap_or_else(|| fail(format!("{}:{}: item {} not found in {}", tfile, tline, name, file)));
     let (mut a, b) = src.range(sp);
@@ -1216,6 +1460,7 @@ fn process_item(ctx: &mut Ctx, file: &str, name: &str, opts: &Opts, tfile: &str,
     let (l0, l1) = (src.line_of(a), src.line_of(b));
     let srctext = src.text[a..b].to_string();
     let start_line = ctx.out_line + 1;
+    ctx.emitted_items.insert(name.to_string());
     ctx.emit(&format!("// >>> item {} from /repo/{}:{}-{}\n", name, file, l0, l1));
     ctx.emit(&text);
     ctx.emit("\n");
@@ -1563,8 +1808,69 @@ fn main() {
     let template = template.unwrap_or_else(|| fail("--template required".into()));
     let out = out.unwrap_or_else(|| fail("--out required".into()));
     let tdir = template.parent().unwrap().to_path_buf();
-    let mut ctx = Ctx { repo, tdir, srcs: BTreeMap::new(), out: String::new(), out_line: 0, regions: vec![], rules_fired: BTreeMap::new(), unit_props: vec![], vacuity, defines: vec![] };
+    let mut ctx = Ctx { repo, tdir, srcs: BTreeMap::new(), out: String::new(), out_line: 0, regions: vec![], rules_fired: BTreeMap::new(), unit_props: vec![], vacuity, defines: vec![], known: Default::default(), known_items: Default::default(), emitted_items: Default::default(), auto_text: String::new() };
+    // R29 bookkeeping: every function named in any template of the contracts directory has a contract of its own
+    {
+        fn scan(dir: &Path, out: &mut std::collections::BTreeSet<String>, items: &mut std::collections::BTreeSet<String>) {
+            if let Ok(rd) = std::fs::read_dir(dir) {
+                for e in rd.flatten() {
+                    let p = e.path();
+                    if p.is_dir() { scan(&p, out, items); continue; }
+                    if p.extension().and_then(|x| x.to_str()) != Some("vt") { continue; }
+                    if let Ok(t) = std::fs::read_to_string(&p) {
+                        for l in t.lines() {
+                            let l = l.trim_start();
+                            // constants / statics written by hand in a template (shims) also count as declared
+                            for kw in ["const ", "static "] {
+                                let mut rest = l;
+                                while let Some(pos) = rest.find(kw) {
+                                    let tail = &rest[pos + kw.len()..];
+                                    let id: String = tail.chars().take_while(|c| c.is_ascii_alphanumeric() || *c == '_').collect();
+                                    if id.len() >= 2 { items.insert(id); }
+                                    rest = tail;
+                                }
+                            }
+                            if let Some(r) = l.strip_prefix("//@item ") {
+                                if let Some(q) = r.split_whitespace().nth(1) { items.insert(q.to_string()); }
+                            }
+                            if let Some(r) = l.strip_prefix("//@fn ") {
+                                if let Some(q) = r.split_whitespace().nth(1) {
+                                    let q = q.split('@').last().unwrap_or(q);
+                                    let q = q.split('#').next().unwrap_or(q);
+                                    out.insert(q.rsplit("::").next().unwrap_or(q).to_string());
+                                }
+                            }
+                        }
+                    }
+                }
+            }
+        }
+        let tdir = ctx.tdir.clone();
+        let (mut k, mut it) = (Default::default(), Default::default());
+        scan(&tdir, &mut k, &mut it);
+        ctx.known = k;
+        ctx.known_items = it;
+    }
     process_template(&mut ctx, &template, false, 0);
+    // auto-imported constants go right after the opening `verus! {`; every recorded output line moves down accordingly
+    if !ctx.auto_text.is_empty() {
+        if let Some(pos) = ctx.out.find("verus! {\n") {
+            let at = pos + "verus! {\n".len();
+            let head_lines = ctx.out[..at].matches('\n').count();
+            let shift = ctx.auto_text.matches('\n').count();
+            ctx.out.insert_str(at, &ctx.auto_text.clone());
+            ctx.out_line += shift;
+            for r in ctx.regions.iter_mut() {
+                if let Some(ol) = r.get_mut("out_lines").and_then(|v| v.as_array_mut()) {
+                    for v in ol.iter_mut() {
+                        if let Some(n) = v.as_u64() { if n as usize > head_lines { *v = json!(n as usize + shift); } }
+                    }
+                }
+            }
+        } else {
+            fail("auto-import: no `verus! {` line in the unit template".to_string());
+        }
+    }
     std::fs::write(&out, &ctx.out).unwrap_or_else(|e| fail(format!("cannot write {}: {}", out.display(), e)));
     let mut probes = vec![];
     for (n, l) in ctx.out.lines().enumerate() {
